@@ -251,6 +251,9 @@ var profiles = map[string]profile{
 		pFault: 5, pLie: 0, pWrongSign: 10, pPass: 5, pHuge: 4, pBadDenom: 5, routes: cleanRoutes, msgKinds: allMsgKinds, mask: []int{0, 4}, pPlanned: 50, pInitLimit: 30},
 	// C13: mostly successful transfers over all routes, to populate the ledgers
 	"C13": {name: "C13", minOps: 1, maxOps: 2, wRecv: 100, pOrbiter: 100, pFee: 30, pBadPayload: 2, routes: cleanRoutes, msgKinds: allMsgKinds, pPlanned: 0},
+	// C19: everything at once, replayed: malformed and mutated memos (error text), several fee recipients (event order), messages, queries
+	"C19": {name: "C19", minOps: 4, maxOps: 14, wRecv: 72, wMsg: 14, wDeposit: 4, wQuery: 10, pOrbiter: 92, pFee: 65, pBadPayload: 22,
+		pFault: 0, pLie: 0, pWrongSign: 10, pPass: 10, pHuge: 4, pBadDenom: 6, routes: cleanRoutes, msgKinds: allMsgKinds, mask: []int{0, 4}, pPlanned: 50, pInitLimit: 30},
 	// C18: passthrough lengths around the limit in force, histories of parameter updates
 	"C18": {name: "C18", minOps: 3, maxOps: 10, wRecv: 55, wMsg: 35, wDeposit: 0, wQuery: 10, pOrbiter: 97, pFee: 20, pBadPayload: 2,
 		pFault: 0, pLie: 0, pWrongSign: 20, pPass: 85, pHuge: 0, pBadDenom: 0, routes: cleanRoutes, msgKinds: []string{"UpdateParams"}, mask: []int{0, 1, 4}, pPlanned: 50},
